@@ -535,7 +535,8 @@ def run_schedule(spec, sched, n_runs=1, overlap=False, inputs=None, tag='', step
                                         result_identity=(bool(r.rt.completed_results) and r.main.done() and not r.main.cancelled()
                                                          and r.main.exception() is None
                                                          and all(x is r.main.result() for x in r.rt.completed_results)),
-                                        n_complete_results=len(r.rt.completed_results)))
+                                        n_complete_results=len(r.rt.completed_results),
+                                        reused_objects=sorted(set(getattr(r.rt, 'reused', [])))))
             obs['snapshots_equal'] = all(s == snaps[0] for s in snaps)
             if not obs['snapshots_equal']:
                 obs['snapshot_diff'] = [(a, b) for s in snaps[1:] for a, b in zip(_flat(snaps[0]), _flat(s)) if a != b][:6]
